@@ -6,7 +6,7 @@ from vlib.skyb import hx
 
 PID = "C13"
 LEAN_MODULE = "Sb.Properties.C13"
-THEOREMS = []
+THEOREMS = ["Sb.C13.firstTouch_none", "Sb.C13.firstTouch_some", "Sb.C13.first_crossing", "Sb.C13.never_reached", "Sb.C13.earliest_in_segment", "Sb.C13.takeoff_infinite_iff", "Sb.C13.takeoff_value", "Sb.C13.params_screening", "Sb.C13.touchesLinear_spec"]
 RULE = ("trajectory files with 1..7 segments whose altitude encodings are constant, linear or well-conditioned cubic (5% rule), arbitrary "
         "x/y encodings incl. degree 7, scales {1, 10, 127}; climbs, hovers, descents before the climb, plateaus; takeoff ascents h chosen "
         "from: 0, the altitude gain at every segment boundary exactly (crossing exactly at a boundary / plateau exactly at the target), "
